@@ -31,6 +31,7 @@ type openRun struct {
 	nonce  uint64
 	noDup  bool // never put a second entry into one cache map (keeps the run deterministic)
 	tipSeq int
+	pendingReset bool // the application's ledger has moved on, Reset not called yet
 }
 
 func (o *openRun) vals(h uint32) []int {
@@ -183,6 +184,11 @@ func (o *openRun) step() *Line {
 		}
 		return n.Transaction(Tx(fmt.Sprintf("t%d.%d", d.BlockIndex, rng.Intn(4))))
 	case 3: // ledger moves on + Reset
+		if o.pendingReset {
+			o.pendingReset = false
+			o.setupPool()
+			return n.Reset()
+		}
 		blockDone := d.VerifSnapshot().BlockProcessed
 		if !blockDone && rng.Intn(100) < 75 {
 			return nil
@@ -219,6 +225,12 @@ func (o *openRun) step() *Line {
 			} else {
 				o.myIdx[n.Height+1] = -1
 			}
+		}
+		if rng.Intn(100) < 30 {
+			// the application has the new tip (fetched from a peer, or its own block) but calls Reset only later: until then the
+			// node stays at its height and the library must not look at the ledger
+			o.pendingReset = true
+			return nil
 		}
 		o.setupPool()
 		return n.Reset()
